@@ -7,7 +7,8 @@
    Resolver.ResolveGroup/ResolveFlow) on exactly the strings that occur in the world's queries and contacts.
    Two tables are redundant with the model and are cross-checked here: w_days carries the real utcDayEnd
    (the model computes start + 24h) and w_nums the real Condition.ValueAsNumber result (the model has
-   [value_number] = [parse_dec] + the exponent bound). *)
+   [value_number] = [parse_dec] + the exponent bound), and w_stored compares the bound on STORED contact numbers
+   ([stored_number_ok]) with what flows.ReadContact really accepts. *)
 (* Note: trees built with NewCondition (the column k_raw) have no remembered date format, parsed ones (k_parsed) have the
    parsing environment's (fix 6978ee3); both are compared against the same e_day_start table, which is right because
    the harness evaluates in the environment it parses in. *)
@@ -23,7 +24,9 @@ Record world := {
   w_langs : list text;
   w_fields : list (text * ftype);
   w_groups : list text;      (* condition values that ResolveGroup resolves *)
-  w_flows : list text        (* condition values that ResolveFlow resolves *)
+  w_flows : list text;       (* condition values that ResolveFlow resolves *)
+  w_stored : list (N * Z * bool)  (* stored contact numbers: length of the JSON text, exponent of the real decimal parse,
+                                     whether flows.ReadContact accepted the contact *)
 }.
 
 Fixpoint assocN (k : N) (l : list (N * N)) : option N :=
@@ -115,7 +118,8 @@ Definition odec_eqb (a : option dec) (b : option (Z * Z)) : bool :=
 (* the two redundant tables agree with the model *)
 Definition world_ok (w : world) : bool :=
   forallb (fun x => let '(s, e) := snd x in (e =? s + day_ns)%Z) (w_days w)
-  && forallb (fun x => odec_eqb (value_number (fst x)) (snd x)) (w_nums w).
+  && forallb (fun x => odec_eqb (value_number (fst x)) (snd x)) (w_nums w)
+  && forallb (fun x => let '(len, ex, accepted) := x in Bool.eqb (stored_number_ok len ex) accepted) (w_stored w).
 
 Definition check (k : ccase) : bool :=
   let e := env_of (k_world k) in
